@@ -41,6 +41,8 @@ CONSTANTS
   FailSaves,   \* BOOLEAN: the metadata store may reject a save
   Focus,       \* BOOLEAN: while a session is being opened or closed nothing else is scheduled
   Record,      \* BOOLEAN: hist carries predictions (events, projected state) besides the labels
+  AckSplit,    \* BOOLEAN: an acknowledgement may be caught inside the consumer's TrackOffset (user code, called by setOffset between the
+               \* position store and the dirty mark): AckBegin / AckMark instead of the atomic Ack
   ReadOnly,    \* BOOLEAN: metadata.readOnly - the backend is wrapped: Save and Clear are no-ops, Load passes through
   RM,          \* BOOLEAN: rollback mitigation gates deliveries on the persisted seqno of every copy of the vBucket
   Slots,       \* number of copies (active + replicas) listed in the cluster map
@@ -308,6 +310,26 @@ SeqNosRet(ok) ==
                   /\ dirty' = {} /\ flag' = FALSE /\ sv' = Frozen(TRUE, TRUE)
                   /\ StartOpening(<<SeqNosEv(TRUE)>>) /\ UNCHANGED foleft
 
+\* GetVBucketSeqNos answers without an entry for the assigned vBucket m (no node reported it): Load reads the missing number as 0
+\* (checkpoint.go l.180: the map lookup's zero value), so a checkpoint of m above 0 lies beyond it: panic. (earliest / infinite only)
+Seen(v, m) == IF v = m THEN 0 ELSE HighOf(v)
+AheadM(m) == \E v \in RangeSet : store[v] # NoOff /\ store[v].seq > Seen(v, m)
+SeqNosEvM(m) == [SeqNosEv(TRUE) EXCEPT !.high = [v \in VB |-> Seen(v, m)]]
+SeqNosRetMiss(m) ==
+  /\ UNCHANGED wind
+  /\ UNCHANGED lpart
+  /\ up /\ opc = "seqnos" /\ Prompt /\ m \in RangeSet /\ ~LatestBranch /\ ~Finite
+  /\ cnt.fail = 0 /\ MaxFail > 0 /\ EnvOK /\ cnt' = [cnt EXCEPT !.fail = MaxFail]     \* (the only injected fault of the behaviour)
+  /\ UNCHANGED <<slog, fo, wire, store, info, rng, open, active, balancing, cwc, finClose, finEnd, rebalances, stopped,
+                 ctxs, synVars, dcwc, opener, opened, clo, spc, rpc, reop, rmVars, scr, sinfo>>
+  /\ IF AheadM(m) \/ PartialLoad
+     THEN /\ opc' = "none" /\ up' = FALSE /\ mpc' = "off" /\ Emit(<<SeqNosEvM(m), [ev |-> "Died"]>>)
+          /\ UNCHANGED <<obsvVars, offs, dirty, flag, obsNil, foleft, live, sv, dpc>>
+     ELSE /\ UNCHANGED <<up, mpc>>
+          /\ offs' = [v \in VB |-> IF InRange(v) THEN LoadedOff(v) ELSE NoOff]
+          /\ dirty' = {} /\ flag' = FALSE /\ sv' = Frozen(TRUE, TRUE)
+          /\ StartOpening(<<SeqNosEvM(m)>>) /\ UNCHANGED foleft
+
 \* GetFailOverLogs of one more vb returns (latest branch only; sequential, l.141-168)
 FoLogRet(ok) ==
   /\ UNCHANGED wind
@@ -438,7 +460,7 @@ PushBody(v, x, hold, sent) ==
                     /\ SetOffset(v, f, FALSE)
                     /\ UNCHANGED <<up, mpc, ctxs, dpc>>
                     /\ Emit(SentOf(v, x, sent) \o TrackEvs(v, f) \o <<PushedEv(v)>>)
-               ELSE /\ ctxs' = Append(ctxs, [vb |-> v, off |-> f, gen |-> cgen])
+               ELSE /\ ctxs' = Append(ctxs, [vb |-> v, off |-> f, gen |-> cgen, held |-> FALSE])
                     /\ UNCHANGED <<up, mpc, offs, dirty, flag>>
                     /\ LET c0 == [ev |-> "Consume", vb |-> v, k |-> x.k, q |-> x.q, key |-> x.key, off |-> f] IN
                        IF hold   \* the consumer blocks inside ConsumeEvent: counter not yet bumped
@@ -535,6 +557,28 @@ Ack(i) ==
      /\ SetOD(c.vb, c.off, TRUE)
      /\ flag' = TRUE
      /\ Emit(<<[ev |-> "Ack", vb |-> c.vb, off |-> c.off]>> \o TrackEvs(c.vb, c.off))
+
+\* setOffset (stream.go l.88-104) is not atomic: offsets.Store, then the consumer's TrackOffset (user code: it may take any time),
+\* then the dirty mark in the map that s.dirtyOffsets names AT THAT MOMENT, then the flag. AckBegin(i): the store is done and the
+\* acknowledging goroutine is inside TrackOffset; AckMark(i): TrackOffset returned, mark + flag, Ack() returns.
+\* While an acknowledgement is held only saves go on (Step): what the property quantifies over is the ack relative to a save.
+Held == \E j \in DOMAIN ctxs : ctxs[j].held
+AckBegin(i) ==
+  /\ AckSplit /\ up /\ ~Busy /\ EnvOK /\ i \in DOMAIN ctxs /\ cnt.acks < MaxAcks /\ ~Held
+  /\ Moves(ctxs[i].vb, ctxs[i].off)
+  /\ cnt' = [cnt EXCEPT !.acks = @ + 1]
+  /\ offs' = [offs EXCEPT ![ctxs[i].vb] = ctxs[i].off]
+  /\ ctxs' = [ctxs EXCEPT ![i].held = TRUE]
+  /\ UNCHANGED <<up, slog, fo, wire, store, info, obsvVars, dirty, flag, rng, open, obsNil, active, balancing, cwc, finClose, finEnd,
+                 rebalances, stopped, synVars, thrVars>>
+  /\ Emit(<<[ev |-> "AckHeld", vb |-> ctxs[i].vb, off |-> ctxs[i].off], [ev |-> "Track", vb |-> ctxs[i].vb, off |-> ctxs[i].off]>>)
+AckMark(i) ==
+  /\ up /\ i \in DOMAIN ctxs /\ ctxs[i].held
+  /\ ctxs' = [ctxs EXCEPT ![i].held = FALSE]
+  /\ dirty' = dirty \cup {ctxs[i].vb} /\ flag' = TRUE
+  /\ UNCHANGED <<envVars, obsvVars, offs, rng, open, obsNil, active, balancing, cwc, finClose, finEnd,
+                 rebalances, stopped, synVars, thrVars>>
+  /\ Emit(<<[ev |-> "AckDone", vb |-> ctxs[i].vb, off |-> ctxs[i].off]>>)
 
 -----------------------------------------------------------------------------
 (* checkpoint.Save (checkpoint.go) by thread t (a driver thread, or "main" for the final save of      *)
@@ -999,6 +1043,7 @@ Parked ==
   \cup {t \o "@save.take" : t \in {u \in SaveThreads : spc[u] = "take"}}
   \cup {t \o "@md.Save" : t \in {u \in SaveThreads : spc[u] = "storing"}}
   \cup {t \o "@save.remark" : t \in {u \in SaveThreads : spc[u] = "remark"}}
+  \cup (IF Held THEN {"acker@track"} ELSE {})
   \cup {"lib:CloseStream:" \o ToString(v) : v \in (IF clo.on THEN clo.left ELSE {})}
   \cup (IF scr = "wait" THEN {"scr@GetVBucketSeqNos"} ELSE {})
   \cup (IF rpc["api"] = "want" THEN {"api@rb.prelock"} ELSE {})
@@ -1030,11 +1075,14 @@ Step0(l) ==
   CASE l.a = "Boot"       -> Boot
     [] l.a = "LoadRet"    -> LoadRet(l.ok, l.part)
     [] l.a = "SeqNosRet"  -> SeqNosRet(l.ok)
+    [] l.a = "SeqNosRetMiss" -> SeqNosRetMiss(l.vb)
     [] l.a = "FoLogRet"   -> FoLogRet(l.ok)
     [] l.a = "OpenRet"    -> OpenRet(l.vb, l.res, l.r)
     [] l.a = "Push"       -> Push(l.vb, l.x, l.hold)
     [] l.a = "ConsRet"    -> ConsRet(l.vb)
     [] l.a = "Ack"        -> Ack(l.i)
+    [] l.a = "AckBegin"   -> AckBegin(l.i)
+    [] l.a = "AckMark"    -> AckMark(l.i)
     [] l.a = "SaveStart"  -> SaveStart(l.t)
     [] l.a = "SaveLock"   -> SaveLock(l.t)
     [] l.a = "SaveAcquire" -> SaveAcquire(l.t)
@@ -1064,7 +1112,9 @@ Step0(l) ==
 \* a callback whose wait at the rollback-mitigation gate is over goes on before anything else happens
 \* ... and so does a save in read-only mode (the wrapped backend returns at once: no call leaves the library)
 ROReady == ReadOnly /\ \E t \in SaveThreads : spc[t] = "storing"
-Step(l) == (GateReady => l.a \in {"GateOpen", "Crash"}) /\ (ROReady => l.a \in {"SaveRet", "Crash"}) /\ Step0(l)
+HeldOK == {"AckMark", "SaveStart", "SaveLock", "SaveAcquire", "SaveTake", "StoreWrite", "SaveRet", "SaveRemark"}
+Step(l) == (GateReady => l.a \in {"GateOpen", "Crash"}) /\ (ROReady => l.a \in {"SaveRet", "Crash"})
+           /\ (Held => l.a \in HeldOK) /\ Step0(l)
 
 MaxCtx == 6
 MaxTimers == 4
@@ -1078,12 +1128,14 @@ Labels ==
   \cup (IF MaxCrash > 0 /\ MaxFail > 0 THEN [a : {"Flush"}, vb : VB] ELSE {})
   \cup [a : {"LoadRet"}, ok : IF MaxFail > 0 THEN BOOLEAN ELSE {TRUE}, part : IF MaxFail > 0 THEN BOOLEAN ELSE {FALSE}]
   \cup [a : {"SeqNosRet"}, ok : IF MaxFail > 0 THEN BOOLEAN ELSE {TRUE}]
+  \cup (IF MaxFail > 0 /\ ~Finite /\ AutoReset = "earliest" THEN [a : {"SeqNosRetMiss"}, vb : VB] ELSE {})
   \cup (IF AutoReset = "latest" THEN [a : {"FoLogRet"}, ok : IF MaxFail > 0 THEN BOOLEAN ELSE {TRUE}] ELSE {})
   \cup [a : {"OpenRet"}, vb : VB, res : {"ok"}, r : {0}]
   \cup (IF MaxFail > 0 THEN [a : {"OpenRet"}, vb : VB, res : {"err"}, r : {0}] ELSE {})
   \cup (IF Rollbacks THEN [a : {"OpenRet"}, vb : VB, res : {"rb"}, r : 0..MaxSeq] ELSE {})
   \cup (IF Hold THEN [a : {"ConsRet"}, vb : VB] ELSE {})
   \cup (IF MaxAcks > 0 THEN [a : {"Ack"}, i : 1..MaxCtx] ELSE {})
+  \cup (IF MaxAcks > 0 /\ AckSplit THEN [a : {"AckBegin", "AckMark"}, i : 1..MaxCtx] ELSE {})
   \cup [a : {"SaveStart"}, t : Savers]
   \cup [a : {"SaveLock", "SaveTake", "SaveAcquire"}, t : IF AutoCkpt THEN SaveThreads ELSE Savers]
   \cup [a : {"StoreWrite"}, t : IF AutoCkpt THEN SaveThreads ELSE Savers, vb : VB]
@@ -1122,6 +1174,12 @@ NewMarks(l) ==
             /\ <<l.x.s, l.x.e>> # osnap[l.vb] THEN {"reopenRbOtherSnapshot"} ELSE {})
   \cup (IF a = "Push" /\ IsDoc(l.x) /\ "reopenRbOtherSnapshot" \in marks /\ (ocatch[l.vb] < 0 \/ l.x.q > ocatch[l.vb])
          THEN {"deliveredAfterReopenRollback"} ELSE {})
+  \* after a rollback the first snapshot of the new branch begins at or below the catch-up mark and ends above it, and is not the
+  \* snapshot the observer still holds from the old branch; then an event above the mark is delivered in it
+  \cup (IF a = "Push" /\ l.x.k = "mark" /\ ocatch[l.vb] >= 0 /\ l.x.s <= ocatch[l.vb] /\ ocatch[l.vb] < l.x.e
+            /\ osnap[l.vb] # NoSnap /\ <<l.x.s, l.x.e>> # osnap[l.vb] THEN {"rbStraddlingMarker"} ELSE {})
+  \cup (IF a = "Push" /\ IsDoc(l.x) /\ "rbStraddlingMarker" \in marks /\ (ocatch[l.vb] < 0 \/ l.x.q > ocatch[l.vb])
+         THEN {"deliveredAfterStraddlingMarker"} ELSE {})
   \cup (IF a = "End" /\ l.cause \in TransientCauses /\ opc = "opening" THEN {"transientEndWhileOpening"} ELSE {})
   \cup (IF a = "End" /\ l.cause \notin TransientCauses /\ l.cause # "closed" /\ opc = "opening" THEN {"finalEndWhileOpening"} ELSE {})
   \cup (IF a = "GateOpen" /\ ~oclosed[l.vb] /\ IsDoc(dwait[l.vb]) /\ ~dwait[l.vb].old /\ ~Reserved(dwait[l.vb]) THEN {"gatePassDoc"} ELSE {})
@@ -1184,6 +1242,10 @@ NewMarks(l) ==
   \cup (IF a = "End" /\ l.cause \in TransientCauses /\ offs[l.vb] # NoOff /\ offs[l.vb].seq > 0 THEN {"transientAfterProgress"} ELSE {})
   \cup (IF a = "End" /\ l.cause \notin TransientCauses /\ l.cause # "closed" /\ reop # {} THEN {"finalEndWhileReopening"} ELSE {})
   \cup (IF a = "OpenRet" /\ l.res = "rb" THEN {"rollback"} ELSE {})
+  \cup (IF a = "SaveTake" /\ dirty # {} /\ (\E j \in DOMAIN ctxs : ctxs[j].held /\ ctxs[j].vb \notin dirty
+                                                     /\ (store[ctxs[j].vb] = NoOff \/ store[ctxs[j].vb].seq < ctxs[j].off.seq))
+         THEN {"saveTookWhileAckHeld"} ELSE {})     \* (the save in flight does not write the held vBucket: only the mark can get it stored)
+  \cup (IF a = "AckMark" /\ "saveTookWhileAckHeld" \in marks THEN {"markAfterTake"} ELSE {})
   \cup (IF a = "TimerFire" /\ l.i \in DOMAIN timers /\ timers[l.i].fn = "Rebalance" THEN {"rearmedTimer"} ELSE {})
   \cup (IF a = "Boot" /\ \E v \in VB : store[v] # NoOff /\ store[v].ss < store[v].seq /\ store[v].seq < store[v].se THEN {"resumeMidSnapshot"} ELSE {})
   \cup (IF a = "SeqNosRet" /\ l.ok /\ PartialLoad /\ ~Ahead THEN {"partialLoad"} ELSE {})
@@ -1192,6 +1254,8 @@ NewMarks(l) ==
   \cup (IF a = "LoadRet" /\ ~l.ok THEN {"loadFails"} ELSE {})
   \cup (IF a = "SeqNosRet" /\ ~l.ok THEN {"seqnosFails"} ELSE {})
   \cup (IF a = "SeqNosRet" /\ l.ok /\ Ahead THEN {"checkpointAhead"} ELSE {})
+  \cup (IF a = "SeqNosRetMiss" /\ store[l.vb] # NoOff /\ store[l.vb].seq > 0 /\ ~Ahead /\ ~PartialLoad THEN {"seqnoMissingForCheckpointed"} ELSE {})
+  \cup (IF a = "SeqNosRetMiss" /\ ~AheadM(l.vb) /\ ~PartialLoad THEN {"seqnoMissingHarmless"} ELSE {})
   \cup (IF a = "SeqNosRet" /\ l.ok /\ Ahead /\ ~PartialLoad THEN {"checkpointAheadFullLoad"} ELSE {})   \* (nothing else wrong with the start)
   \cup (IF a = "FoLogRet" /\ ~l.ok THEN {"failoverLogFails"} ELSE {})
   \cup (IF a = "OpenRet" /\ l.res = "err" /\ opened # {} THEN {"secondOpenFails"} ELSE {})
@@ -1222,4 +1286,9 @@ C07 == NoViol(obs, "C07")
 C16 == NoViol(obs, "C16")
 \* the monitor's view of the store is the store
 StoreAgrees == obs.store = store
+\* in the delay phase of a rebalance (stream closed, AfterRebalanceStart emitted, re-open not begun) the timer the stream holds is armed
+\* and its callback is the re-open, however the notifications fell: once the delay elapses the stream is re-opened
+\* (the rig's "Stalled" report - Props.tla - can only come from code that is not a behaviour of this specification)
+ReopenArmed == (up /\ obs.phase = "delay" /\ ~obs.closeCalled) =>
+                  (cur \in DOMAIN timers /\ timers[cur].st = "armed" /\ timers[cur].fn = "rebalance")
 =============================================================================
